@@ -307,6 +307,7 @@ def main():
             "print_assumptions": assumptions_txt[-4000:],
             "coqchk": coqchk_txt,
             "evaluations": evaluations, "distinct_nontrivial": distinct,
+            "traces_validated_against_impl": evaluations,     # every evaluation is model vs implementation on one input
             "rule": info.get("rule", ""),
             "samples": samples,
             "suites": {n: {"evaluations": s.evaluations, "distinct_nontrivial": len(s.distinct),
